@@ -1,3 +1,6 @@
 import Gittuf.Props.C19
 #print axioms Gittuf.World.C19_need_means_one_short
 #print axioms Gittuf.World.C19_no_need_means_met
+#print axioms Gittuf.World.C19_no_need_is_verification
+#print axioms Gittuf.World.C19_refusal_is_refusal
+#print axioms Gittuf.World.C19_verification_implies_possible
